@@ -1010,6 +1010,34 @@ def case_array(c):
     return res
 
 
+def case_handbuilt(c):
+    """Hand-built arrays: background streams made WITHOUT a member list (the documented default), members attached afterwards.
+    A second, unrelated background stream made the same way has no members: its noise changes no stream of the first."""
+    from setigen.voltage import DataStream, BackgroundDataStream
+    viol = []
+    own, bg1, bg2 = c['own'], c['bg1'], c['bg2']
+    try:
+        s_a = DataStream(sample_rate=48e3, seed=1)
+        s_a.add_noise(0, own)
+        bg_a = BackgroundDataStream(sample_rate=48e3, seed=2)
+        bg_a.antenna_streams.append(s_a)
+        bg_a.add_noise(0, bg1)
+        before = float(s_a.get_total_noise_std())
+        bg_b = BackgroundDataStream(sample_rate=48e3, seed=3)       # another array's background, no members given
+        members_b = len(bg_b.antenna_streams)
+        bg_b.add_noise(0, bg2)
+        after = float(s_a.get_total_noise_std())
+        want = float(np.sqrt(own * own + bg1 * bg1))
+        if not close(before, want, REL_ID) or not close(after, want, REL_ID) or members_b != 0:
+            viol.append({'site': 'BackgroundDataStream', 'failure': 'background_leaks_between_arrays',
+                         'detail': 'stream with own deviation %r under a background of %r: total %r; after an UNRELATED BackgroundDataStream() '
+                                   '(created with %d members) added noise of %r the total is %r, root-sum-square %r'
+                                   % (own, bg1, before, members_b, bg2, after, want)})
+    except Exception as e:
+        viol.append({'site': 'BackgroundDataStream', 'failure': 'raised', 'detail': '%s: %s' % (type(e).__name__, e)})
+    return {'viol': viol, 'n': 1, 'nontrivial': [engine.sha(c)], 'outcomes': ['handbuilt']}
+
+
 # ============================================================================ auxiliary (not deciding)
 def case_aux(c):
     """Seeded sample moments inside 7-sigma bands: counters only, never a violation."""
@@ -1084,6 +1112,7 @@ def run(ctx):
             acases.append(dict(A=A, pols=pols, delays=delays, sample_rate=48e3, head=[list(o) for o in h], depth=d,
                                m=24, seed=seed))
     ctx.pmap(case_array, acases, chunk=2)
+    ctx.pmap(case_handbuilt, [dict(own=o, bg1=a, bg2=b) for o in (3.0, 0.5) for a in (4.0, 1.0) for b in (12.0, 0.25)])
     # auxiliary
     aux = []
     for df, dt in ((1.0, 1.0), (BL_DF, BL_DT)):
